@@ -793,6 +793,19 @@ def regression_cases(mode):
     zl = {"t": "ListBox", "items": [T_("top"), {"t": "Pile", "items": [], "focus": 0}, T_("bottom")], "walker": "simple", "focus": 0}
     out.append({"mode": mode, "kind": "box", "recipe": zl, "sizes": [[12, 5]], "ops": [["render", 0, 1], ["mut", 2, ["contents_append", 12345]], ["render", 0, 1]]})
     out.append({"mode": mode, "kind": "box", "recipe": zl, "sizes": [[12, 5]], "ops": [["render", 0, 0], ["mut", 2, ["contents_append", 777]], ["render", 0, 0], ["mut", 2, ["contents_clear"]], ["render", 0, 0], ["mut", 2, ["contents_append", 778]], ["render", 0, 0]]})
+    # list shorter than the box below the focus: refilled from above, with an item that has no rows among the
+    # refilled ones; and a view state that a render at a shorter height must not change
+    zl2 = {"t": "ListBox", "items": [T_("t0"), {"t": "Pile", "items": [], "focus": 0}, T_("t2"), T_("t3")], "walker": "simple", "focus": 3}
+    for v in ("top", "middle", "bottom"):
+        out.append({"mode": mode, "kind": "box", "recipe": zl2, "sizes": [[12, 6]], "ops": [["mut", 0, ["lb_set_focus", 3, None]], ["mut", 0, ["lb_valign", v]], ["render", 0, 1], ["mut", 2, ["contents_append", 4242]], ["render", 0, 1]]})
+    lb5 = {"t": "ListBox", "items": [T_(f"row {i}") for i in range(10)] + [E_("e:", "x")] + [T_(f"row {i}") for i in range(11, 16)], "walker": "focus", "focus": 10}
+    for v in ("bottom", "middle"):
+        for f in (1, 0):
+            out.append({"mode": mode, "kind": "box", "recipe": lb5, "sizes": [[14, 9], [14, 3], [14, 1]], "ops": [["mut", 0, ["lb_set_focus", 10, None]], ["mut", 0, ["lb_valign", v]], ["render", 0, f], ["render", 1, f], ["render", 0, f], ["render", 2, f], ["render", 0, f], ["render", 1, f]]})
+    # a flow Pile treats WEIGHT items like PACK items: one that has no rows is not rendered either
+    wp = {"t": "Pile", "items": [["weight", 1, T_("a")], ["weight", 1, {"t": "Pile", "items": [], "focus": 0}]], "focus": 0}
+    out.append({"mode": mode, "kind": "flow", "recipe": wp, "sizes": [[12]], "ops": [["render", 0, 0], ["mut", 2, ["contents_append", 99]], ["render", 0, 0]]})
+    out.append({"mode": mode, "kind": "flow", "recipe": {"t": "LineBox", "w": wp, "title": ""}, "sizes": [[12]], "ops": [["render", 0, 1], ["mut", 3, ["contents_append", 98]], ["render", 0, 1]]})
     # scroll state reached only key by key: a tall item partly scrolled off, then back (looks after every key)
     tall = "\n".join(f"line {i}" for i in range(12))
     lbs = [
